@@ -32,10 +32,18 @@ _ref = {}
 # configuration
 
 
-def build_config(world):
+def build_config(world, towers=None, nsteps=None):
+    """towers: indices into the world's tower list (a sub-configuration keeps
+    that order); nsteps: keep only the first nsteps met steps."""
     from bldfm.config_parser import parse_config_dict
 
     raw = copy.deepcopy(world["config"])
+    if towers is not None:
+        raw["towers"] = [raw["towers"][i] for i in towers]
+    if nsteps is not None:
+        for k, v in raw["met"].items():
+            if isinstance(v, list):
+                raw["met"][k] = v[:nsteps]
     return parse_config_dict(raw)
 
 
@@ -82,8 +90,11 @@ def gen_world(rng):
             if isinstance(v, list):
                 v[-1] = v[0]
         repeated = True
-    if rng.random() < 0.4:
+    if rng.random() < 0.5:
         met["timestamps"] = [f"2024-06-01T{6 + k:02d}:30" for k in range(ns)]
+        if ns >= 2 and rng.random() < 0.5:
+            # labels need not be unique (e.g. date-only labels for sub-daily steps)
+            met["timestamps"] = ["2024-06-01" if k < (ns + 1) // 2 else "2024-06-02" for k in range(ns)]
     nz = rng.choice([4, 5, 6])
     dom = {"nx": rng.choice([8, 10, 11, 12, 16]), "ny": rng.choice([8, 9, 12]), "xmax": rng.choice([80.0, 100.0]), "ymax": rng.choice([60.0, 100.0]),
            "nz": nz, "modes": rng.choice([[4, 4], [8, 8], [6, 4]]), "halo": rng.choice([None, None, 25.0, 40.0]), "ref_lat": 50.0, "ref_lon": 11.0}
@@ -105,6 +116,9 @@ def gen_world(rng):
         wd = met["wind_dir"]
         met["wind_dir"] = [w + 17.0 for w in wd] if isinstance(wd, list) else wd + 17.0
     par = {"max_workers": rng.choice([1, 2, 3, 4, 5]), "use_cache": rng.random() < 0.5}
+    if (colocated or repeated) and footprint and rng.random() < 0.6:
+        # two tasks that want the same cache entry: make sure the cache is on
+        par["use_cache"] = True
     world = {"config": {"domain": dom, "towers": towers, "met": met, "solver": solver, "parallel": par},
              "flux_seed": rng.randrange(1000), "n_towers": nt, "n_steps": ns, "colocated": colocated, "repeated": repeated}
     return world
@@ -125,6 +139,18 @@ def generate(seed, tier="quick"):
             ops.append({"op": "multitower", "flux": gen.random() < 0.4})
         else:
             ops.append({"op": "timeseries", "tower": gen.randrange(world["n_towers"]), "flux": gen.random() < 0.4})
+    for o in ops[1:]:
+        # later driver calls may use a sub-configuration (other towers / fewer steps)
+        if gen.random() < 0.5:
+            nt, ns = world["n_towers"], world["n_steps"]
+            if nt > 1 and gen.random() < 0.7:
+                k = gen.randrange(1, nt + 1)
+                o["tw"] = sorted(gen.sample(range(nt), k)) if gen.random() < 0.7 else gen.sample(range(nt), k)
+            if ns > 1 and gen.random() < 0.5:
+                o["ns"] = gen.randrange(1, ns + 1)
+    if len(ops) >= 2 and gen.random() < 0.3:
+        # ... or the first call uses the smaller configuration
+        ops[0], ops[-1] = ops[-1], ops[0]
     parent = {"threads": gen.choice([1, 1, 4]), "presolve": gen.choice(["none", "same", "other"]),
               "numba_state": gen.choice(["serial_first", "parallel_first"])}
     if tier == "thorough" and gen.random() < 0.004:
@@ -295,6 +321,19 @@ def compare_single(got, exp, where):
     return bit
 
 
+def _structure_digest(out):
+    def one(r):
+        try:
+            return [r.get("tower_name"), repr(r.get("timestamp")), arr_digest(r["conc"]), arr_digest(r["flx"]), [arr_digest(g) for g in r["grid"]], repr(sorted(r.get("params", {}).items(), key=str))]
+        except Exception:
+            return repr(type(r))
+    if isinstance(out, dict):
+        return sha([[k, [one(r) for r in v] if isinstance(v, list) else repr(type(v))] for k, v in out.items()])
+    if isinstance(out, list):
+        return sha([one(r) for r in out])
+    return sha(repr(type(out)))
+
+
 class Run:
     def __init__(self, job):
         self.job = job
@@ -310,8 +349,10 @@ class Run:
     def probe(self, k, n=1):
         self.probes[k] = self.probes.get(k, 0) + n
 
-    def check_series(self, got, tower_idx, use_flux, where):
+    def check_series(self, got, tower_idx, use_flux, where, nsteps=None):
         ref = self.ref["flux" if use_flux else "plain"][tower_idx]
+        if nsteps is not None:
+            ref = ref[:nsteps]
         if not isinstance(got, list):
             raise Violation("time-order", "wrong-result", f"{where}: series is {type(got).__name__}, not a list", {"field": "type"})
         if len(got) != len(ref):
@@ -321,15 +362,16 @@ class Run:
             self.compared += 1
             self.bit_equal += 1 if bit else 0
 
-    def check_towers(self, got, use_flux, where):
-        names = self.ref["names"]
+    def check_towers(self, got, use_flux, where, towers=None, nsteps=None):
+        idx = list(range(len(self.ref["names"]))) if towers is None else list(towers)
+        names = [self.ref["names"][i] for i in idx]
         if not isinstance(got, dict):
             raise Violation("keyed-by-name", "wrong-result", f"{where}: result is {type(got).__name__}, not a dict", {"field": "type"})
         if list(got.keys()) != names:
             kind = "key-order" if sorted(got.keys()) == sorted(names) else "key-set"
             raise Violation("keyed-by-name", kind, f"{where}: keys {list(got.keys())} != configuration order {names}", {"field": "keys"})
-        for ti, name in enumerate(names):
-            self.check_series(got[name], ti, use_flux, f"{where} tower {name!r}")
+        for ti, name in zip(idx, names):
+            self.check_series(got[name], ti, use_flux, f"{where} tower {name!r}", nsteps)
 
     def run(self):
         import numba
@@ -372,16 +414,27 @@ class Run:
         except Exception as e:
             raise HarnessError(f"parent pre-solve failed: {type(e).__name__}: {e}")
         self.log.add("parent", p["threads"], p["presolve"], state)
+        held = []
+        cfgs = {}
         for k, op in enumerate(rec["ops"]):
             where = f"op {k} {op['op']}"
+            tw, ns = op.get("tw"), op.get("ns")
+            ckey = canon([tw, ns])
+            if ckey not in cfgs:
+                cfgs[ckey] = cfg if (tw is None and ns is None) else build_config(rec["world"], tw, ns)
+            ocfg = cfgs[ckey]
+            if tw is not None or ns is not None:
+                where += f"(sub-config towers={tw} steps={ns})"
+                self.probe("sub_config_op")
             try:
                 if op["op"] == "parallel":
                     where += f"[{op['strategy']},w={op['max_workers']}]"
-                    out = bi.run_bldfm_parallel(cfg, max_workers=op["max_workers"], parallel_over=op["strategy"])
+                    out = bi.run_bldfm_parallel(ocfg, max_workers=op["max_workers"], parallel_over=op["strategy"])
                 elif op["op"] == "multitower":
-                    out = bi.run_bldfm_multitower(cfg, surface_flux=flux if op["flux"] else None)
+                    out = bi.run_bldfm_multitower(ocfg, surface_flux=flux if op["flux"] else None)
                 else:
-                    out = bi.run_bldfm_timeseries(cfg, cfg.towers[op["tower"]], surface_flux=flux if op["flux"] else None)
+                    tix = op["tower"] if tw is None else tw[op["tower"] % len(tw)]
+                    out = bi.run_bldfm_timeseries(ocfg, ocfg.towers[op["tower"] if tw is None else op["tower"] % len(tw)], surface_flux=flux if op["flux"] else None)
             except Violation:
                 raise
             except HarnessError:
@@ -397,11 +450,16 @@ class Run:
                 raise Violation("returns", "exception", f"{where} raised {type(e).__name__}: {str(e)[:200]}" + (f" | worker: {str(cause)[-600:]}" if cause else ""),
                                 {"op": k, "exc": type(e).__name__, "tb": traceback.format_exc()[-1200:], "stderr": tail})
             if op["op"] == "parallel":
-                self.check_towers(out, False, where)
+                self.check_towers(out, False, where, tw, ns)
             elif op["op"] == "multitower":
-                self.check_towers(out, op["flux"], where)
+                self.check_towers(out, op["flux"], where, tw, ns)
             else:
-                self.check_series(out, op["tower"], op["flux"], where)
+                self.check_series(out, tix, op["flux"], where, ns)
+            # what an earlier call returned must not change behind the caller's back
+            for (pk, pout, pdig) in held:
+                if _structure_digest(pout) != pdig:
+                    raise Violation("equal-single", "earlier-result-changed", f"{where}: the object returned by op {pk} was modified by this later call", {"field": "aliasing"})
+            held.append((k, out, _structure_digest(out)))
             self.log.add("op-done", k, op["op"], sched.step)
             self.ops_done += 1
         sc["choices"] = list(chooser.made)
@@ -500,6 +558,7 @@ def simplify(rec):
             del c["world"]["config"]["towers"][k]
             c["world"]["n_towers"] -= 1
             for o in c["ops"]:
+                o.pop("tw", None)
                 if o["op"] == "timeseries":
                     o["tower"] = min(o["tower"], c["world"]["n_towers"] - 1)
             yield c
@@ -513,6 +572,12 @@ def simplify(rec):
                 c["world"]["config"]["met"][k] = v[:-1]
         c["world"]["n_steps"] = n - 1
         yield c
+    for k, o in enumerate(rec["ops"]):
+        if "tw" in o or "ns" in o:
+            c = copy.deepcopy(rec)
+            c["ops"][k].pop("tw", None)
+            c["ops"][k].pop("ns", None)
+            yield c
     # workers
     for k, o in enumerate(rec["ops"]):
         if o["op"] == "parallel" and o["max_workers"] not in (1, 2):
